@@ -624,16 +624,23 @@ class Check(PropertyCheck):
 
     # ---------------- property oracle (needs no model) ----------------
     def oracle(self, case, obs):
+        """Clause tags (the part in [...] is what known() matches on):
+        [exc] unexpected exception / result type anywhere (op, isolated replay, read-back)   [assign] assignment did not complete
+        [readback] set then get   [unknown] unknown coding not removed   [raw-ref] strict reference decoder on the raw body
+        [content-length]   [decode] Message.decode on a readable message   [decode-encode] decode();encode() pair
+        [hist] exact history dependence (decoded values, states)   [hist-enc] / [hist-raw] semantic history dependence of an
+        encode result / of the raw body stored by an assignment.  No clause is skipped because another one failed."""
         fails = []
         ops, recs = case["ops"], obs["ops"]
         for k, (op, r) in enumerate(zip(ops, recs)):
             o = op["o"]
-            if r["res"].startswith("exc:") or r["iso_res"].startswith("exc:"):
-                fails.append(f"op {k} [exc] {o} raised {r['res']} (only ValueError / TypeError are possible outcomes)")
-                continue
+            bad = [t for t in [r["res"], r["iso_res"]] + list(r["rb"]) if t.startswith("exc:") or t.startswith("weird")]
+            if bad or r["cache"].startswith("weird"):
+                fails.append(f"op {k} [exc] {o}: {bad or r['cache']} (only bytes/None results and ValueError / TypeError are possible outcomes)")
             # ---- "assigning a message's decoded content and reading it back yields the same bytes, the raw body decodes
             #      to that content with independent decoders, and, absent Transfer-Encoding, Content-Length equals the raw
-            #      body length" — for supported codings, incl. unknown / mixed-case names (quantifier text)
+            #      body length" — for supported codings, incl. unknown / mixed-case names (quantifier text).
+            #      No claim is made for assigning None, nor under Python bytes-/text-codecs used as a coding.
             if o in ("set", "menc"):
                 i = op["i"]
                 if o == "set":
@@ -646,7 +653,6 @@ class Check(PropertyCheck):
                     want = "verr" if (o == "menc" and kind == "unknown") else "done"
                     if r["res"] != want:
                         fails.append(f"op {k} [assign] {o} under Content-Encoding {ce0!r} ended {r['res']}, expected {want}")
-                        continue
                     if r["rb"][i] != "ok:" + hx(v):
                         fails.append(f"op {k} [readback] content assigned {hx(v)} under {ce0!r}, read back {r['rb'][i]}")
                     if kind == "unknown":
@@ -654,11 +660,22 @@ class Check(PropertyCheck):
                             fails.append(f"op {k} [unknown] unknown coding {ce0!r}: header {ce1!r} raw {hx(raw)} after assigning {hx(v)}")
                     elif kind == "identity" or (ce0 or "").lower() in STATEMENT_CODINGS:
                         if raw is None or ref_decode(ce0 or "identity", raw) != v:
-                            fails.append(f"op {k} [raw-ref] raw body {hx(raw)} under {ce0!r} does not decode to the assigned content "
-                                         f"{hx(v)} with the reference decoder")
+                            fails.append(f"op {k} [raw-ref] msg={i} raw={'none' if raw is None else hx(raw)} coding={_hs((ce0 or 'identity').lower())} "
+                                         f"content={hx(v)}: the raw body does not decode to the assigned content with the reference decoder")
                     te, cl = r["after"][i].split(",")[2:4]
                     if te == "0" and (raw is None or cl != str(len(raw))):
                         fails.append(f"op {k} [content-length] Content-Length {cl} but raw body has {len(raw or b'')} bytes, no Transfer-Encoding")
+            # ---- "Decoding a message … preserves its content": on a message whose content is readable (strict) under an
+            #      identity / compressed coding, Message.decode() completes and the content reads the same afterwards
+            if o == "mdec":
+                i = op["i"]
+                c0 = r["rb_before"][i]
+                k0 = kind_of(_ce_of(r["before"][i]) or "identity")
+                if c0.startswith("ok:") and k0 in ("identity", "cached"):
+                    if r["res"] != "done":
+                        fails.append(f"op {k} [decode] Message.decode() ended {r['res']} on a message whose content reads {c0}")
+                    elif r["rb"][i] != c0:
+                        fails.append(f"op {k} [decode] content {c0} before Message.decode(), {r['rb'][i]} after")
             # ---- "Decoding a message and re-encoding it preserves its content"
             if o == "menc" and k > 0 and ops[k - 1]["o"] == "mdec" and ops[k - 1]["i"] == op["i"] and recs[k - 1]["res"] == "done":
                 i = op["i"]
@@ -673,65 +690,165 @@ class Check(PropertyCheck):
                 kind = kind_of(op["c"]) if o == "enc" else None
                 if o == "enc" and a is not None and b is not None and kind == "cached":
                     # encoded bytes may differ; they must mean the same: the reference decoder maps both to the input
-                    if ref_decode(op["c"], a) != unhx(op["data_hex"]):
-                        fails.append(f"op {k} [hist-enc] encode({op['data_hex']}, {op['c']!r}) gave {hx(a)} in this history, {hx(b)} from an "
-                                     f"empty cache, and the reference decoder does not map the former back to the input")
+                    if ref_decode(op["c"], a) != unhx(op["data_hex"]) or ref_decode(op["c"], b) != unhx(op["data_hex"]):
+                        fails.append(f"op {k} [hist-enc] raw={hx(a)} coding={_hs(op['c'].lower())} content={op['data_hex']}: encode gave these bytes in "
+                                     f"this history, {hx(b)} from an empty cache, and the reference decoder does not map both back to the input")
                 else:
                     fails.append(f"op {k} [hist] {o} result {r['res']} in this history, {r['iso_res']} from an empty cache")
             if r["after"] != r["iso_after"]:
                 for i in (0, 1):
                     sa, sb = r["after"][i].split(","), r["iso_after"][i].split(",")
-                    if sa == sb: continue
+                    if sa == sb: continue                       # this message: no difference, nothing to report
                     ce = _ce_of(r["after"][i])
                     ra, rbb = _raw_of(r["after"][i]), _raw_of(r["iso_after"][i])
-                    if o in ("set", "menc") and sa[1:3] == sb[1:3] and ra is not None and rbb is not None and kind_of(ce or "identity") == "cached":
+                    if o in ("set", "menc") and i == op["i"] and sa[1:3] == sb[1:3] and ra is not None and rbb is not None \
+                            and kind_of(ce or "identity") == "cached":
                         da, db = ref_decode(ce, ra), ref_decode(ce, rbb)
                         if da is None or da != db:
-                            fails.append(f"op {k} [hist-enc] raw body {hx(ra)} in this history, {hx(rbb)} from an empty cache (coding {ce!r}); "
-                                         f"the reference decoder does not give them the same meaning")
+                            fails.append(f"op {k} [hist-raw] msg={i} raw={hx(ra)} coding={_hs(ce.lower())}: the raw body is {hx(rbb)} from an empty "
+                                         f"cache; the reference decoder does not give them the same meaning")
                     else:
                         fails.append(f"op {k} [hist] message {i} is {r['after'][i]} in this history, {r['iso_after'][i]} from an empty cache")
         return fails
 
     # ---------------- finding classifier ----------------
     def _lenient(self, case, obs, k):
-        """F-C31a exactly: the bytes stored/returned at op k are (i) rejected by the strict reference decoder (or decoded
-        to something else), (ii) decoded by mitmproxy's own *uncached* decoder to exactly the content, (iii) explained by
-        the cache: the entry before op k is (bytes, coding, errors, content) and an earlier op of this history really
-        decoded exactly these bytes under that coding."""
-        op, r = case["ops"][k], obs["ops"][k]
+        """F-C31a exactly, as structured facts about op k (an assignment or an encoding.encode call).  Returns the dict
+        {msg, raw, coding, content} of the excused bytes, or None.
+          (i)   the bytes stored/returned are rejected by the strict reference decoder (or decoded to something else),
+          (ii)  mitmproxy's own *uncached* decoder maps them to exactly the assigned content,
+          (iii) op k made no codec call (a cache hit) and the cache entry before op k is exactly
+                (bytes, lower-cased coding, errors, content),
+          (iv)  that entry was made by a real DECODE call of this history: the latest earlier op after which the cache
+                became this entry called the uncached decoder on exactly these bytes with this coding and errors and got
+                the content; every op in between left the entry alone."""
+        ops, recs = case["ops"], obs["ops"]
+        if not (0 <= k < len(recs)): return None
+        op, r = ops[k], recs[k]
         o = op["o"]
         if o == "enc":
-            x, c, content, errors = _b(r["res"]), op["c"].lower(), unhx(op["data_hex"]), op["e"]
+            msg, x, c, content, errors = None, _b(r["res"]), op["c"].lower(), unhx(op["data_hex"]), op["e"]
         elif o in ("set", "menc"):
-            i = op["i"]
-            x, ce = _raw_of(r["after"][i]), _ce_of(r["after"][i])
-            content = unhx(r["v"]) if (o == "set" and r["v"] is not None) else _raw_of(r["before"][i])
-            c, errors = (ce or "").lower(), "strict"
-            if o == "set" and r["v"] is None: return False
+            msg = op["i"]
+            x, ce1 = _raw_of(r["after"][msg]), _ce_of(r["after"][msg])
+            if o == "set":
+                if r["v"] is None: return None
+                content, ce0 = unhx(r["v"]), _ce_of(r["before"][msg])
+            else:
+                content, ce0 = _raw_of(r["before"][msg]), op["c"]
+            if ce0 is None or ce1 is None or ce0 != ce1: return None          # the header names the coding, before and after
+            c, errors = ce1.lower(), "strict"
         else:
-            return False
-        if x is None or content is None or c not in CACHED_ENC or c not in CACHED_DEC: return False
-        if ref_decode(c, x) == content: return False                                   # (i)
+            return None
+        if x is None or content is None or c not in CACHED_ENC or c not in CACHED_DEC: return None
+        if ref_decode(c, x) == content: return None                                    # (i)
         try:
-            if ORIG_DEC[c](x) != content: return False                                 # (ii)
+            if ORIG_DEC[c](x) != content: return None                                  # (ii)
         except Exception:
-            return False
+            return None
         entry = ":".join([hx(x), _hs(c), _hs(errors), hx(content)])                    # (iii)
-        if r["cache_before"] != entry or r["called"]: return False
-        want = ":".join(["D", _hs(c)])
-        for j in range(k):
-            rj = obs["ops"][j]
-            nd = rj["need"].split(":")
-            if rj["called"] and rj["need"].startswith(want + ":") and nd[3] == hx(x) and rj["fresh"] == "ok:" + hx(content):
-                return True
-        return False
+        if r["cache_before"] != entry or r["called"]: return None
+        j = k - 1                                                                      # (iv)
+        while j >= 0 and recs[j]["cache_before"] == entry and recs[j]["cache"] == entry:
+            j -= 1
+        if j < 0 or recs[j]["cache"] != entry: return None
+        rj = recs[j]
+        if not rj["called"] or rj["need"] != ":".join(["D", _hs(c), _hs(errors), hx(x)]) or rj["fresh"] != "ok:" + hx(content):
+            return None
+        return {"msg": msg, "raw": hx(x), "coding": _hs(c), "content": hx(content)}
+
+    # clause tag -> op kinds it can be raised for; only these three clauses are ever excused
+    _EXCUSED = {"raw-ref": ("set", "menc"), "hist-raw": ("set", "menc"), "hist-enc": ("enc",)}
 
     def known(self, case, obs, failure):
-        m = re.match(r"op (\d+) \[(raw-ref|hist-enc)\]", failure)
-        if m and self._lenient(case, obs, int(m.group(1))):
-            return "F-C31a"
-        return None
+        """F-C31a iff the failure is one of the three recorded clauses ([raw-ref] strict reference decoder on the stored raw
+        body; [hist-raw] / [hist-enc] the same bytes seen as semantic history dependence of the assignment / of
+        encoding.encode), raised for the matching op kind, about exactly the bytes/coding/content (and message) that
+        `_lenient` establishes for that op.  Everything else — [exc] [assign] [readback] [unknown] [content-length] [decode]
+        [decode-encode] [hist] — is never excused, whatever the input."""
+        m = re.match(r"op (\d+) \[([a-z-]+)\] (.*)", failure, re.S)
+        if not m or m.group(2) not in self._EXCUSED: return None
+        k, tag = int(m.group(1)), m.group(2)
+        if not (0 <= k < len(case["ops"])) or case["ops"][k]["o"] not in self._EXCUSED[tag]: return None
+        facts = self._lenient(case, obs, k)
+        if facts is None: return None
+        said = dict(re.findall(r"(msg|raw|coding|content)=([0-9a-z-]+)", m.group(3).split(":")[0]))
+        for f, val in said.items():
+            if str(facts[f]) != val: return None
+        if "raw" not in said or "coding" not in said: return None
+        return "F-C31a"
+
+    def known_selftest(self):
+        """classifier audit (notes/known_audit.txt): positive witnesses, same-class/other-clause and
+        neighbouring-input/same-clause near misses; any disagreement ends the run as INFRA"""
+        import copy
+        S = lambda i, v: {"o": "set", "i": i, "m": "val", "v_hex": hx(v)}
+        peer = lambda c, x, v, e=(): {"ops": [{"o": "raw", "i": 0, "m": "val", "v_hex": hx(x)}, {"o": "ce", "i": 0, "c": c},
+                                              {"o": "get", "i": 0, "s": 1}] + list(e) + [S(0, v)]}
+        gz = ORIG_ENC["gzip"](P1)
+        triples = []
+
+        def fab(tag, msg, raw, c, content):      # the text the oracle would produce for that clause
+            if tag == "hist-enc": return f"[hist-enc] raw={hx(raw)} coding={_hs(c)} content={hx(content)}: x"
+            head = f"[{tag}] msg={msg} raw={hx(raw)} coding={_hs(c)}"
+            return head + (f" content={hx(content)}: x" if tag == "raw-ref" else ": x")
+        # ---- positive witnesses: every oracle failure on them is one of the recorded clauses and is excused
+        W = [peer("br", b"", b""), peer("zstd", b"", b""), peer("GZip", gz[:-4], P1), peer("gzip", zlib.compress(P1, 1), P1),
+             {"ops": [{"o": "dec", "data_hex": "-", "c": "deflate", "e": "replace"}, {"o": "enc", "data_hex": "-", "c": "Deflate", "e": "replace"}]},
+             {"ops": peer("br", b"", b"")["ops"][:3] + [{"o": "menc", "i": 0, "c": "br"}]}]
+        for w in W:
+            o = self.impl(w); fs = self.oracle(w, o)
+            assert fs, ("witness no longer fails", w)
+            for f in fs: triples.append((w, o, f, "F-C31a"))
+        w = W[0]; o = self.impl(w); k = 3
+        # ---- (a) same input class, a different clause of the oracle: never excused
+        for tag in ("exc", "assign", "readback", "unknown", "content-length", "decode", "decode-encode", "hist"):
+            triples.append((w, o, f"op {k} [{tag}] msg=0 raw=- coding={_hs('br')} content=-: x", None))
+        triples.append((w, o, f"op 2 {fab('raw-ref', 0, b'', 'br', b'')}", None))            # a get op is not an assignment
+        triples.append((w, o, f"op {k} {fab('hist-enc', 0, b'', 'br', b'')}", None))          # clause of encoding.encode on a set op
+        triples.append((w, o, f"op {k} {fab('raw-ref', 1, b'', 'br', b'')}", None))           # about the other message
+        triples.append((w, o, f"op {k} {fab('raw-ref', 0, b';', 'br', b'')}", None))          # about other bytes
+        triples.append((w, o, f"op {k} {fab('raw-ref', 0, b'', 'zstd', b'')}", None))         # about another coding
+        triples.append((w, o, f"op {k} [raw-ref] something went wrong", None))                # unstructured text
+        triples.append((w, o, f"op 9 {fab('raw-ref', 0, b'', 'br', b'')}", None))             # no such op
+        # ---- (b) neighbouring inputs just outside the class, same clause (text as the oracle would word it)
+        def near(case, kk, tag, msg, raw, c, content):
+            triples.append((case, self.impl(case), f"op {kk} {fab(tag, msg, raw, c, content)}", None))
+        br0 = brotli.compress(b"", quality=0)
+        near(peer("br", br0, b""), 3, "raw-ref", 0, br0, "br", b"")                           # strict decoder accepts the cached bytes
+        near(peer("br", b"", b"", [{"o": "enc", "data_hex": "78", "c": "zstd", "e": "strict"}]), 4, "raw-ref", 0, br0, "br", b"")   # entry evicted: miss
+        near(peer("br", b"", b"x"), 3, "raw-ref", 0, brotli.compress(b"x", quality=0), "br", b"x")      # other content: miss
+        near({"ops": [{"o": "dec", "data_hex": "-", "c": "br", "e": "replace"}, {"o": "enc", "data_hex": "-", "c": "br", "e": "strict"}]},
+             1, "hist-enc", None, br0, "br", b"")                                              # other errors: miss
+        near({"ops": [{"o": "dec", "data_hex": "-", "c": "br", "e": "strict"}, {"o": "enc", "data_hex": "-", "c": "zstd", "e": "strict"}]},
+             1, "hist-enc", None, zstd.compress(b"", level=1), "zstd", b"")                    # other coding: miss
+        # entry made by an ENCODE, then hit by the other message (the swapped-entry shape of seed c31-1, on the clean tree)
+        g0 = ORIG_ENC["gzip"](b"")
+        sw = {"ops": [{"o": "ce", "i": 0, "c": "gzip"}, {"o": "ce", "i": 1, "c": "gzip"}, S(0, b""), S(1, b"")]}
+        near(sw, 3, "raw-ref", 1, g0, "gzip", b"")
+        near({"ops": sw["ops"][:3] + [{"o": "set", "i": 1, "m": "rawof", "j": 0}]}, 3, "raw-ref", 1, ORIG_ENC["gzip"](g0), "gzip", g0)
+        # doctored observations of the positive witness: each single fact of (iii)/(iv) falsified
+        good = f"op {k} {fab('raw-ref', 0, b'', 'br', b'')}"
+        for edit in ("called-k", "entry-errors", "entry-coding", "maker-not-called", "maker-encode", "maker-other-bytes", "maker-result", "touched-between"):
+            d = copy.deepcopy(o); R = d["ops"]
+            if edit == "called-k": R[k]["called"] = True
+            if edit == "entry-errors": R[k]["cache_before"] = ":".join(["-", _hs("br"), _hs("replace"), "-"])
+            if edit == "entry-coding": R[k]["cache_before"] = ":".join(["-", _hs("zstd"), _hs("strict"), "-"])
+            if edit == "maker-not-called": R[2]["called"] = False
+            if edit == "maker-encode": R[2]["need"] = "E" + R[2]["need"][1:]
+            if edit == "maker-other-bytes": R[2]["need"] = ":".join(["D", _hs("br"), _hs("strict"), "3b"])
+            if edit == "maker-result": R[2]["fresh"] = "ok:78"
+            if edit == "touched-between": R[2]["cache"] = "none"
+            triples.append((w, d, good, None))
+        triples.append((w, o, good, "F-C31a"))
+        for case, ob, f, want in triples:
+            got = self.known(case, ob, f)
+            if got != want:
+                raise AssertionError(f"known() self-test: expected {want}, got {got} for failure {f!r} on {json.dumps(case)[:300]}")
+        return len(triples)
+
+    def setup(self, tier):
+        self.known_selftest()
 
     # ---------------- model tie ----------------
     def model_lines(self, case):
@@ -740,7 +857,10 @@ class Check(PropertyCheck):
         lines = ["reset"]
         for op, r in zip(case["ops"], obs["ops"]):
             o, f = op["o"], r["fresh"]
-            val = "none" if r["v"] is None else r["v"]
+            # value modes `last` / `rawof j` are resolved by the MODEL (driver session), not copied from the real run;
+            # a wrong prediction shows in the compared `need` (carries the data) and message state
+            mode = op.get("m", "val")
+            val = "none" if mode == "none" else "last" if mode == "last" else f"rawof{op['j']}" if mode == "rawof" else op.get("v_hex", "-")
             if o in ("dec", "enc"):
                 lines.append(f"{o} {op['data_hex']} {_hs(op['c'])} {_hs(op['e'])} {f}")
             elif o == "set": lines.append(f"set {op['i']} {val} {f}")
@@ -775,7 +895,7 @@ class Check(PropertyCheck):
                 out.add(f"kind:{kind_of(nm)}")
                 hit = not r["called"]           # a call was named but the real code did not make it: served from the cache
                 out.add(f"{r['need'][0]}:{'hit' if hit else 'miss'}")
-                if hit and o in ("enc", "set", "menc") and self._lenient(case, obs, k): out.add("finding:F-C31a")
+                if hit and o in ("enc", "set", "menc") and self._lenient(case, obs, k) is not None: out.add("finding:F-C31a")
             if o in ("set", "menc") and r["before"][op["i"]].split(",")[2] == "1": out.add("assign:with-TE")
             if o == "menc" and k > 0 and case["ops"][k - 1]["o"] == "mdec": out.add("pair:decode-encode")
             if "c" in op and op["c"] and op["c"] != op["c"].lower(): out.add("coding:mixed-case")
